@@ -283,6 +283,11 @@ def translate():
     except TieError as ex:
         return ["T-steps: " + str(ex)], {}
     vlib.write_if_changed(GEN_V, text)
+    for kind in ("http", "https"):
+        body = strip_comments(fn_body(src, "add_%s_listener" % kind))
+        i, j = body.find("validate_sozu_id_header("), body.find(".entry(address)")
+        if i < 0 or j < 0 or i > j or not re.search(r"if\s+let\s+Some\(ref\s+\w+\)\s*=\s*listener\.sozu_id_header", body):
+            fails.append("T-steps: add_%s_listener no longer validates listener.sozu_id_header before the map entry (model: add_listener)" % kind)
     for fn, want in MODEL_CERT_EVENTS.items():
         got = [n for n, k in summary["events_" + fn]]
         if got != want:
@@ -344,7 +349,9 @@ def oracle_ops(pems=None, hcs=None):
 
 def add_listener(kind, addr, active=0, rest=0, **over):
     F = facts()
-    op = ["add_listener", kind, addr, active, rest]
+    sid = over.get("sozu_id_header", dict(F["fields"][kind]).get("sozu_id_header", 0))
+    sid_ok = 1 if (kind > 1 or sid == 0) else F["sozu_id"][(sid - 1) % len(F["sozu_id"])]
+    op = ["add_listener", kind, addr, active, rest, sid_ok]
     names = [n for n, _ in F["fields"][kind]]
     for k in over:
         assert k in names, k
@@ -460,7 +467,7 @@ def rand_listener(rng, kind, addr):
             if over[n]:
                 over["http_answers"] = 1
         elif n == "sozu_id_header":
-            over[n] = rng.choice([0, 4, 5])
+            over[n] = rng.choice([0, 4, 4, 5, 5, 1, 6, 11, 12])
         elif n == "alpn_protocols":
             over[n] = rng.randrange(4)
         elif n == "public_address":
